@@ -1125,7 +1125,13 @@ def inline_call(caller_j, bb, callee_j):
         caller_j["blocks"].append({"cleanup": bl.get("cleanup", False), "stmts": stmts, "term": nt})
 
 
-def inline_new_helpers(fx, known_fn_names, max_blocks=400, passes=3):
+def inline_functions(fx, qnames):
+    """Inline the named (small, private) functions into their callers — used by rules that are written against the inlined
+    form so that the helper and its hand-inlined equivalent look the same."""
+    return inline_new_helpers(fx, None, select=lambda b: b.q in qnames)
+
+
+def inline_new_helpers(fx, known_fn_names, max_blocks=400, passes=3, select=None):
     """Functions whose name did not exist when the rules were written (audit/names.json `_defs`) are helpers some edit
     extracted: every call to one from the same crate is inlined into its caller, so the rules see the code where they were
     written to look for it.  Inlining preserves behaviour, so a verdict on the inlined body is a verdict on the program.
@@ -1133,7 +1139,8 @@ def inline_new_helpers(fx, known_fn_names, max_blocks=400, passes=3):
     import copy
     done = []
     for cr in fx.crates.values():
-        new = {b.defi: b for b in cr.bodies if b.kind in ("Fn", "AssocFn") and b.d["name"] not in known_fn_names and len(b.blocks) <= max_blocks}
+        pick = select or (lambda b: b.d["name"] not in known_fn_names)
+        new = {b.defi: b for b in cr.bodies if b.kind in ("Fn", "AssocFn") and pick(b) and len(b.blocks) <= max_blocks}
         if not new:
             continue
         for _ in range(passes):
